@@ -294,7 +294,7 @@ pub fn gen_request(rng: &mut Rng, allow_body: bool) -> GenReq {
     if rng.chance(1, 2) {
         let n = rng.below(4);
         target.push('?');
-        let q: Vec<String> = (0..n).map(|_| format!("{}={}", { let k = gen_query_part(rng); if k.is_empty() { "k".into() } else { k } }, gen_query_part(rng))).collect();
+        let q: Vec<String> = (0..n).map(|_| format!("{}={}", { let k = gen_query_part(rng); if k.is_empty() { "k".into() } else { k } }, if rng.chance(1, 6) { rng.pick(&["YWJjZA==", "a=b", "=", "1=2=3"]).to_string() } else { gen_query_part(rng) })).collect();
         target.push_str(&q.join("&"));
         tshape.push_str(&format!("q{n}"));
     }
